@@ -85,18 +85,18 @@ def demoParams : Params :=
     base := fun _ => 0 }
 
 def demoSchedule : List Act :=
-  [ -- tx 1 runs first on the stale base value, publishes, validates (stale but unchecked yet)
-    .claimExec 1, .execRead 1, .execFinish 1, .publishOne 1, .publishOne 1, .recordResult 1 false,
+  [ -- tx 1 runs first on the stale base value, publishes, rewinds
+    .claimExec 1, .execRead 1, .execFinish 1, .publishOne 1 1, .endPublish 1, .recordResult 1 false,
     .tailTs 1, .tailLts 1,
     -- tx 0 executes and publishes x := 5, rewinds
-    .claimExec 0, .execFinish 0, .publishOne 0, .publishOne 0, .recordResult 0 false,
+    .claimExec 0, .execFinish 0, .publishOne 0 0, .endPublish 0, .recordResult 0 false,
     .tailTs 0, .tailLts 0,
     -- tx 0 validates and is finalized
     .claimVal 0, .valTs 0, .endScan 0, .finalize,
     -- tx 1's validation now fails: marks its write as estimate, rewinds, re-executes
-    .claimVal 1, .valTs 1, .valCheck 1, .endScan 1, .markOne 1, .endValMark 1, .tailTs 1, .tailLts 1,
-    .claimExec 1, .execRead 1, .execFinish 1, .publishOne 1, .publishOne 1, .recordResult 1 false,
-    .valTs 1, .valCheck 1, .endScan 1, .finalize, .commit, .commit ]
+    .claimVal 1, .valTs 1, .valCheck 1 0, .endScan 1, .markOne 1 1, .endValMark 1, .tailTs 1, .tailLts 1,
+    .claimExec 1, .execRead 1, .execFinish 1, .publishOne 1 1, .endPublish 1, .recordResult 1 false,
+    .valTs 1, .valCheck 1 0, .endScan 1, .finalize, .commit, .commit ]
 
 example : (run demoParams init demoSchedule).map (fun s => (s.fin, s.com, s.outcomes)) =
     some (2, 2, [.ok [(0, 5)] 0, .ok [(1, 6)] 5]) := by decide
